@@ -112,7 +112,15 @@ def loc_ok_vehicle(sim, v) -> bool:
         return _route_ok(st.route, v, st.request.destination)
     if isinstance(st, Repositioning):
         return _route_ok(st.route, v, None)
-    if isinstance(st, (ServicingPoolingTrip, DispatchPoolingTrip)):
+    if isinstance(st, DispatchPoolingTrip):
+        # sent to the first stop of its plan: the route ends where that request waits (if it still does)
+        target = None
+        if len(st.trip_plan) > 0:
+            r = sim.requests.get(st.trip_plan[0][0])
+            if r is not None:
+                target = r.geoid
+        return _route_ok(st.route, v, target)
+    if isinstance(st, ServicingPoolingTrip):
         return _route_ok(st.route, v, None)
     return True
 
